@@ -5,8 +5,8 @@ package sim
 
 import (
 	"bytes"
-	"os"
 	"fmt"
+	"os"
 	"sort"
 
 	"github.com/streamingfast/bstream"
